@@ -2,7 +2,7 @@ from engine.core import Job
 META = dict(
     level="other",
     claim="Line bookkeeping mechanisms on the real tokenizer/preprocessor: add_line_numbers gives every token 1 + the number of newlines before it (all 8-byte buffers, 3 tokens at arbitrary positions); line splicing removes splices but keeps the number of newline characters, so later physical lines keep their numbers (all 7-byte buffers); __LINE__ inside a macro body is the invocation line in the invoking file with that file's delta; every expression/statement is preceded by the .loc record of its own token; the #line delta is checked against C11 6.10.4p3 (known finding: off by one).",
-    note="Bounded buffers. Not covered: origin chasing of __LINE__/__FILE__ through macro expansion, diagnostics, .loc/.file records, tokens on continuation lines (they are numbered with the first line of their logical line). copy_line/preprocess are replaced by a contract in the #line obligation.",
+    note="Bounded buffers. Not covered: __FILE__, diagnostics' line numbers (see C13.4), .file records, chains of more than two macro levels, tokens on continuation lines (they are numbered with the first line of their logical line). copy_line/preprocess are replaced by a contract in the #line obligation.",
     functions=["preprocess.c:line_macro", "codegen.c:gen_expr", "codegen.c:gen_stmt", "tokenize.c:add_line_numbers", "tokenize.c:remove_backslash_newline", "preprocess.c:read_line_marker"],
     trusted_base=["CBMC 6.11"],
     assumptions=["copy_line + preprocess yield the directive's number token (contract)"],
